@@ -110,11 +110,14 @@ enum TS {
   Done,
 }
 
-#[derive(Clone, Copy, Debug, PartialEq, Eq, Hash)]
+#[derive(Clone, Debug, PartialEq, Eq, Hash)]
 pub enum Strategy {
   Uniform,
   /// PCT-style: random priorities, d priority change points
   Pct(u32),
+  /// systematic: the running thread continues (no preemption) except at the
+  /// listed scheduling points, where the baton goes to the listed thread
+  Fixed(Vec<(u64, usize)>),
 }
 
 struct Sched {
@@ -155,7 +158,15 @@ impl Sched {
       .collect()
   }
   fn pick(&mut self, cands: &[usize]) -> usize {
-    let c = match self.strategy {
+    let c = match &self.strategy {
+      Strategy::Fixed(list) => {
+        let forced = list.iter().find(|(p, _)| *p == self.points).map(|(_, t)| *t).filter(|t| cands.contains(t));
+        match forced {
+          Some(t) => t,
+          None if cands.contains(&self.current) => self.current,
+          None => cands[0],
+        }
+      }
       Strategy::Uniform => cands[self.rng.below(cands.len())],
       Strategy::Pct(_) => {
         if self.change_at.contains(&self.points) {
@@ -295,11 +306,11 @@ pub fn baton_run(seed: u64, strategy: Strategy, bodies: Vec<Box<dyn FnOnce() + S
     }
     p
   };
-  let change_at: Vec<u64> = match strategy {
-    Strategy::Pct(d) => (0..d).map(|_| 1 + rng.below(60) as u64).collect(),
+  let change_at: Vec<u64> = match &strategy {
+    Strategy::Pct(d) => (0..*d).map(|_| 1 + rng.below(60) as u64).collect(),
     _ => vec![],
   };
-  let first = rng.below(n);
+  let first = if matches!(strategy, Strategy::Fixed(_)) { 0 } else { rng.below(n) };
   let gen = GEN.fetch_add(1, Ordering::SeqCst);
   {
     let mut g = sched_lock();
